@@ -618,6 +618,7 @@ def run_threads(scn, seed, workdir, choices=None, pct=0):
     BENV = E
     path = _os.path.join(workdir, 'thr.lock')
     objs = []
+    notheld = []
     ctor = scn.get('ctor') or [None] * len(scn['reent'])
     for i, r in enumerate(scn['reent']):
         ob = FL.FileLock(path, reentrant=r, **({} if ctor[i] is None else {'timeout': ctor[i] * TICK}))
@@ -626,8 +627,10 @@ def run_threads(scn, seed, workdir, choices=None, pct=0):
                 v.oid = i
         objs.append(ob)
 
-    def critical(me, hold=0):
+    def critical(me, hold=0, ob=None):
         S.point('cs.enter')
+        if ob is not None and not ob.is_locked:     # told it holds the lock, and the object says nobody does
+            notheld.append(me)
         E.occ += 1
         E.maxocc = max(E.maxocc, E.occ)
         if E.occ > 1:
@@ -669,7 +672,7 @@ def run_threads(scn, seed, workdir, choices=None, pct=0):
                         E.ctx[me] = None
                         continue
                     E.ctx[me] = None
-                    critical(me, hold)
+                    critical(me, hold, ob)
                     S.point('release')
                     E.labels.append(f'rb:{me}:{o}:0')
                     E.ctx[me] = 'release'
@@ -690,7 +693,7 @@ def run_threads(scn, seed, workdir, choices=None, pct=0):
                     E.ctx[me] = 'release'
                     ob.__exit__(BodyError, BodyError('raised inside the inner with-block'), None)
                     E.ctx[me] = None
-                    critical(me, hold)
+                    critical(me, hold, ob)
                     S.point('release')
                     E.labels.append(f'rb:{me}:{o}:0')
                     E.ctx[me] = 'release'
@@ -708,7 +711,7 @@ def run_threads(scn, seed, workdir, choices=None, pct=0):
                         E.ctx[me] = None
                         continue
                     E.ctx[me] = None
-                    critical(me, hold)
+                    critical(me, hold, ob)
                     S.point('release')
                     E.labels.append(f'rb:{me}:{o}:0')
                     E.ctx[me] = 'release'
@@ -725,7 +728,7 @@ def run_threads(scn, seed, workdir, choices=None, pct=0):
                     continue
                 if nested:
                     ok2 = do_acquire(me, o, blocking=False)
-                    critical(me, hold)
+                    critical(me, hold, ob)
                     if ok2:
                         if force:
                             do_release(me, o, force=True)
@@ -733,14 +736,14 @@ def run_threads(scn, seed, workdir, choices=None, pct=0):
                         do_release(me, o)
                     do_release(me, o)
                 else:
-                    critical(me, hold)
+                    critical(me, hold, ob)
                     do_release(me, o)
         return f
     for k in range(len(scn['scripts'])):
         S.spawn(f'T{k}', body(k))
     S.run()
     res = dict(labels=E.labels, maxocc=E.maxocc, overlaps=E.overlaps, hung=S.hung, errors=S.errors,
-               trace=S.trace, still_locked=[ob.is_locked for ob in objs])
+               trace=S.trace, still_locked=[ob.is_locked for ob in objs], notheld=notheld)
     for ob in objs:
         neutralise(ob, E.open_fds)
     for fd in list(E.open_fds):
